@@ -140,6 +140,13 @@ def mapping(cur_fn, ref_fn) -> dict[str, str]:
         # a helper): merging them is sound when their occurrence ranges are disjoint and each range starts with a
         # definition (then no value flows from one range into the next)
         ranges = []
+        deferred = set()
+        for h in hc:
+            for d in ast.walk(h):
+                if isinstance(d, (ast.GeneratorExp, ast.Lambda, ast.FunctionDef, ast.AsyncFunctionDef)):
+                    deferred |= {n.id for n in ast.walk(d) if isinstance(n, ast.Name)}
+        if any(c in deferred for c in curs):
+            continue                      # a deferred read (generator / lambda / closure) makes occurrence ranges meaningless
         for c in curs:
             occ = [(i, n) for i, h in enumerate(hc) for n in ast.walk(h) if isinstance(n, ast.Name) and n.id == c]
             if not occ or not isinstance(occ[0][1].ctx, ast.Store) and not _first_is_store(hc[occ[0][0]], c):
@@ -177,13 +184,51 @@ def _first_is_store(header, name) -> bool:
     return bool(stores) and not loads
 
 
+
+def visible_names(root: ast.AST):
+    """Name nodes under root together with the set of names shadowed at that point by parameters of enclosing nested
+    lambdas / function definitions (relative to root): a rename of an outer local must not touch a use that actually
+    refers to such a parameter"""
+    out = []
+
+    def rec(n, shadow):
+        if isinstance(n, (ast.Lambda, ast.FunctionDef, ast.AsyncFunctionDef)) and n is not root:
+            a = n.args
+            ps = {x.arg for x in list(a.posonlyargs) + list(a.args) + list(a.kwonlyargs)}
+            if a.vararg:
+                ps.add(a.vararg.arg)
+            if a.kwarg:
+                ps.add(a.kwarg.arg)
+            # defaults are evaluated in the enclosing scope
+            for d in list(a.defaults) + [d for d in a.kw_defaults if d is not None]:
+                rec(d, shadow)
+            inner = shadow | ps
+            body = n.body if isinstance(n.body, list) else [n.body]
+            for b in body:
+                rec(b, inner)
+            if not isinstance(n, ast.Lambda):
+                for d in n.decorator_list:
+                    rec(d, shadow)
+            return
+        if isinstance(n, ast.Name):
+            out.append((n, shadow))
+        for c in ast.iter_child_nodes(n):
+            rec(c, shadow)
+    rec(root, frozenset())
+    return out
+
+
+def rename_scoped(root: ast.AST, m: dict) -> int:
+    k = 0
+    for n, shadow in visible_names(root):
+        if n.id in m and n.id not in shadow:
+            n.id = m[n.id]
+            k += 1
+    return k
+
+
 def apply(cur_fn, m: dict[str, str]) -> int:
-    n = 0
-    for node in ast.walk(cur_fn):
-        if isinstance(node, ast.Name) and node.id in m:
-            node.id = m[node.id]
-            n += 1
-    return n
+    return rename_scoped(cur_fn, m)
 
 
 def _param_mapping(cur_fn, ref_fn) -> dict[str, str]:
